@@ -141,6 +141,9 @@ def run(tier, seed):
                 traces.append(tr)
                 rep.count(1, key=case)
                 rep.sample({'case': case, 'final_result': fin['_result'], 'uninterrupted': fin['_uninterrupted'], 'points': fin['_points']}, limit=5)
+    # extension beyond the listed properties: refinement structure of the cell strategy (spec/CellScheme.tla), drift reports only
+    from harness.drivers import cellscheme_extra
+    cellscheme_extra.run(rep, tier)
     return conclude(rep, traces, ('C14_',))
 
 
